@@ -263,12 +263,20 @@ def opR3 (L : Level) (tag : String) (vec : Bytes) : String :=
 
 /-- the report schema evaluated on the decoded object with the scores (bit patterns, hex) and
     severities the implementation itself reported for that object -/
-def opR3W (L : Level) (tag : String) (vec : Bytes) (ss svs : String) : Option String := do
+def opR3W (L : Level) (tag : String) (vec : Bytes) (ss svs rs : String) : Option String := do
   let (o, e) := V3.decode L V3.Obj3.new vec
   let sc ← (ss.splitOn ",").mapM fun h => (ofHex h).map fun bs => bs.foldl (fun a b => a * 256 + b) 0
   let sv ← (svs.splitOn ",").mapM String.toInt?
+  let rend ← (rs.splitOn ",").mapM ofHex
   let idx (l : Level) : Nat := match l with | .base => 0 | .temporal => 1 | .environmental => 2
-  let fields := (Report.mkReportWith (fun l => sc.getD (idx l) 0) (fun l => sv.getD (idx l) 0) L o (Names.langOf tag)).map
+  -- a score on the tenth grid is rendered by the model's `fmtScore`; for any other double the rendering is the
+  -- one `strconv.FormatFloat(score, 'f', -1, 64)` gives in the harness (strconv is not modelled off the grid)
+  let scR (l : Level) : Bytes :=
+    let b := sc.getD (idx l) 0
+    match Report.tenthsOfBits b with
+    | some _ => Report.fmtScore b
+    | none => rend.getD (idx l) []
+  let fields := (Report.mkReportWith scR (fun l => sv.getD (idx l) 0) L o (Names.langOf tag)).map
     fun p => s!"{p.1}={toHex p.2}"
   let sorted := fields.foldl (fun acc x => insertSorted x acc) []
   pure (s!"e={errTag e} " ++ " ".intercalate sorted)
@@ -313,7 +321,7 @@ def runOpExt (f : List String) : Option String :=
       let L ← levelOf' l; let hd ← ofHex hd; let u ← ofHex unit; let n ← n.toNat?; pure (opBig ver L hd u n)
   | ["NM", fn, v, tag] => do let v ← v.toInt?; opNM fn v tag
   | ["R3", l, tag, h] => do let L ← levelOf' l; let s ← ofHex h; pure (opR3 L tag s)
-  | ["R3W", l, tag, h, ss, svs] => do let L ← levelOf' l; let s ← ofHex h; opR3W L tag s ss svs
+  | ["R3W", l, tag, h, ss, svs, rs] => do let L ← levelOf' l; let s ← ofHex h; opR3W L tag s ss svs rs
   | ["XM", mode, ref] => opXM mode ref
   | ["H", h] => some (Heap.runHistory h)
   | ["SPECT3", m] => spect3 m
